@@ -303,6 +303,19 @@ func (ba *flatBlobAccess) GetFromComposite(ctx context.Context, parentDigest, ch
 		}
 		ba.refreshesBlobsDurationGetFromComposite.Observe(time.Since(refreshStart).Seconds())
 		ba.refreshesBlobsGetFromComposite.Observe(1)
+	} else {
+		// The lock was dropped while slicing. Blocks may have
+		// been rotated in the meantime, which changes the
+		// meaning of Location.BlockIndex. Look up the parent
+		// object once more, so that the slices are registered
+		// against its current location.
+		parentLocation, err = ba.keyLocationMap.Get(parentKey)
+		if err != nil {
+			// The parent object disappeared. The child
+			// that was sliced from it is still valid.
+			ba.lock.Unlock()
+			return bChild
+		}
 	}
 
 	// Create key-location map entries for each of the slices. This
